@@ -163,6 +163,41 @@ def run(tier, seed):
                     for p in ref)
                 if not same:
                     ck.violation({"clause": "lookup", "lmax": lmax, "N": Ntr, "l": l}, "eccentricity lookup(max l=%d, N=%d)[%d] is not the l=%d N=%d table" % (lmax, Ntr, l, l, Ntr), {})
+    # the same helpers on a SCALAR eccentricity, called in sequence for different truncation levels at the same e (a truncation-
+    # convergence study) and twice for the same request with the first answer overwritten in between: no answer may depend on an
+    # earlier call or share storage with it
+    for lmax in jit_degrees:
+        for e_s in (0.3, np.float64(0.11)):
+            seq = [2, 8, 4, 20, 2] if tier == "quick" else [2, 6, 4, 10, 8, 20, 2, 12]
+            for k, Ntr in enumerate(seq):
+                try:
+                    _, _, ef, _ = find_mode_manipulators(lmax, Ntr, True)
+                    res = ef(e_s)
+                except Exception as ex:
+                    ck.violation({"clause": "lookup", "lmax": lmax, "N": Ntr}, "eccentricity lookup(max l=%d, N=%d)(%r) raised %s" % (lmax, Ntr, e_s, ex), {})
+                    continue
+                ck.case(("lookup-seq", lmax, float(e_s), k, Ntr), True)
+                for l in range(2, lmax + 1):
+                    ref = getattr(importlib.import_module("TidalPy.tides.eccentricity_funcs.orderl%d" % l), "eccentricity_funcs_trunc%d" % Ntr)(e_s)
+                    same = set(ref.keys()) == set(res[l].keys()) and all(
+                        set(ref[p].keys()) == set(res[l][p].keys()) and all(float(ref[p][q]) == float(res[l][p][q]) for q in ref[p]) for p in ref)
+                    if not same:
+                        ck.violation({"clause": "lookup", "lmax": lmax, "N": Ntr, "l": l, "sequence": True},
+                                     "eccentricity lookup(max l=%d, N=%d)(%r), call %d of the sequence N = %s at the same e: degree %d is not the N=%d table (q modes of p=0: %s, table %s)" % (
+                                         lmax, Ntr, e_s, k + 1, seq, l, Ntr, sorted(res[l][0].keys()), sorted(ref[0].keys())), {})
+                        break
+                # overwrite the answer in place, ask again
+                try:
+                    p0 = sorted(res[2].keys())[0]
+                    q0 = sorted(res[2][p0].keys())[0]
+                    want = float(res[2][p0][q0])
+                    res[2][p0][q0] = -12345.0
+                    again = ef(e_s)
+                    if float(again[2][p0][q0]) != want:
+                        ck.violation({"clause": "lookup", "lmax": lmax, "N": Ntr, "aliasing": True}, "eccentricity lookup(max l=%d, N=%d)(%r): a second identical request returns the caller's overwritten first answer (%r instead of %r)" % (
+                            lmax, Ntr, e_s, float(again[2][p0][q0]), want), {})
+                except Exception:
+                    pass
     # every multi-degree lookup helper, evaluated as plain Python (NUMBA_DISABLE_JIT) on exact arguments, returns the per-degree tables
     import os
     pr = core.run_py(["-m", "harness.lookup_nojit"], timeout=900, env={"NUMBA_DISABLE_JIT": "1", "NUMBA_CACHE_DIR": os.environ.get("NUMBA_CACHE_DIR", "")})
